@@ -46,9 +46,11 @@ func (b *RetriableBatcher) Out(data *WorkerData, batch *Batch) {
 		Multiplier:          b.backoffOpts.Multiplier,
 		RandomizationFactor: 0.5,
 		MaxInterval:         backoff.DefaultMaxInterval,
-		MaxElapsedTime:      backoff.DefaultMaxElapsedTime,
-		Stop:                backoff.Stop,
-		Clock:               backoff.SystemClock,
+		// only the attempt number limits the retries: with the default of 15 minutes a long outage
+		// ended the retries early whatever the configured count (also with "retry forever")
+		MaxElapsedTime: 0,
+		Stop:           backoff.Stop,
+		Clock:          backoff.SystemClock,
 	}
 	exponentionalBackoff.Reset()
 
